@@ -134,6 +134,52 @@ def build_pool(d):
             dd["path"] = p2
             dd["damaged"] = True
             pool.append(dd)
+    # ---- directed images (Python writer)
+    def put(name, img, clean=None, damaged=False):
+        pth = os.path.join(d, name)
+        with open(pth, "wb") as fh:
+            fh.write(img)
+        if clean is None:
+            dd = describe(pth, damaged)
+        else:
+            dd = dict(clean, path=pth, damaged=True)
+        pool.append(dd)
+        return dd
+
+    def patched(img, lay, field, value):
+        b = bytearray(img)
+        for name, off, w in lay:
+            if name == field:
+                b[off:off + w] = (value & ((1 << (8 * w)) - 1)).to_bytes(w, "little")
+                return bytes(b)
+        raise KeyError(field)
+    # two files stored once (one location, one block list), the block size word of the second one altered: what the second file
+    # reads as must not depend on whether the first was read before
+    for dc in (False, True):
+        body = (b"shared block " * 400)[:4096] + rnd.randbytes(4096) + b"tail of the shared file"
+        a_ = dict(type="file", name=b"a_first", data=body, frag=True, id="A")
+        b_ = dict(type="file", name=b"b_second", same_as="A", frag=True)
+        root = dict(type="dir", name=b"", children=[a_, b_, dict(type="file", name=b"other", data=b"o" * 5000, frag=True)], mode=0o755)
+        img, lay = sqfswrite.build(root, data_comp=dc, pad=4096)
+        clean = put("py_shared_%d.sqfs" % dc, img)
+        w0 = a_["_words"][0]
+        for vi, w in enumerate([5000, 3840 | (1 << 24), (w0 & 0xFFFFFF) - 1 | (w0 & (1 << 24)), w0 ^ (1 << 24), 1, 4096]):
+            put("dmgword_%d_%d.sqfs" % (dc, vi), patched(img, lay, "ino%d.file.blk0" % b_["_ino"], w), clean)
+    # a tail whose fragment block cannot be loaded: entry beyond the image / index beyond the table
+    f_ = dict(type="file", name=b"f_block_and_tail", data=rnd.randbytes(4096) + b"tail" * 25, frag=True)
+    g_ = dict(type="file", name=b"g_tail_only", data=b"only a tail " * 8, frag=True)
+    root = dict(type="dir", name=b"", children=[f_, g_], mode=0o755)
+    img, lay = sqfswrite.build(root, data_comp=False, pad=4096)
+    clean = put("py_frag.sqfs", img)
+    put("dmgfrag_0.sqfs", patched(img, lay, "frag0.start", len(img) + 4096), clean)
+    put("dmgfrag_1.sqfs", patched(img, lay, "ino%d.file.frag_idx" % f_["_ino"], 7), clean)
+    put("dmgfrag_2.sqfs", patched(img, lay, "frag0.size", 60000), clean)
+    # entry names with a NUL byte inside (nothing in the format forbids them): "n" must not resolve to the entry "n\0yyyy"
+    kids = [dict(type="file", name=b"n\0" + b"y" * k, data=b"x", frag=True) for k in (1, 40, 300)] + [dict(type="dir", name=b"d\0" + b"z" * 60, children=[])]
+    root = dict(type="dir", name=b"", children=[dict(type="dir", name=b"nul", children=kids), dict(type="file", name=b"plain", data=b"p", frag=True)], mode=0o755)
+    img, lay = sqfswrite.build(root, data_comp=False, pad=4096)
+    dd = put("py_nulname.sqfs", img)
+    dd["damaged"] = True      # (names the library's own writer never produces: no strict layout checks)
     return pool
 
 
@@ -154,7 +200,7 @@ def describe(path, damaged):
 
 @st.composite
 def cases(draw, tier="quick"):
-    npool = 31
+    npool = 50
     pi = draw(st.integers(0, npool - 1))
     nops = draw(st.integers(3, 40))
     ops = []
